@@ -226,7 +226,7 @@ def run(ctx: Ctx):
     for k in range(12 if ctx.thorough else 4):
         dx = [4000.0, 800.0, 20000.0][k % 3]
         imax, jmax = 40, 30
-        lon, lat = polar_grid(imax, jmax, dx, xp=float(r.uniform(-100, 200)) * 4000 / dx, yp=float(r.uniform(600, 1200)) * 4000 / dx, ylon=float(r.uniform(0, 60)))
+        lon, lat = polar_grid(imax, jmax, dx, xp=float(r.uniform(-100, 200)) * 4000 / dx, yp=float(r.uniform(600, 1200)) * 4000 / dx, ylon=float(r.uniform(0, 60)) if k % 4 != 3 else float(r.uniform(178, 184)))   # every fourth grid lies across the date line
         sub = None if k % 2 == 0 else [3, 35, 2, 27]
         lo = (sub or [1, imax - 1, 1, jmax - 1])
         tg = []
@@ -235,6 +235,13 @@ def run(ctx: Ctx):
             tg.append((float(sample2D(lon, np.array(x), np.array(y))), float(sample2D(lat, np.array(x), np.array(y))), x, y))
         ejobs.append(dict(lon=lon, lat=lat, dx=dx, subgrid=sub, layout=["sparse", "dense"][k % 2], targets=[(t[0], t[1]) for t in tg], truth=[(t[2], t[3]) for t in tg],
                           numrec=[0, 0, 2, 1][k % 4]))
+    # a grid whose longitudes run continuously past 180 degrees
+    lon_d, lat_d = polar_grid(40, 30, 10000.0, xp=20.0, yp=300.0, ylon=181.0)
+    tg = []
+    for _ in range(6):
+        x = float(r.uniform(2.0, 36.5)); y = float(r.uniform(2.0, 26.5))
+        tg.append((float(sample2D(lon_d, np.array(x), np.array(y))), float(sample2D(lat_d, np.array(x), np.array(y))), x, y))
+    ejobs.append(dict(lon=lon_d, lat=lat_d, dx=10000.0, subgrid=None, layout="sparse", targets=[(t[0], t[1]) for t in tg], truth=[(t[2], t[3]) for t in tg], numrec=0))
     # split output with lon/lat in the records, sparse layout
     ejobs.append(dict(ejobs[0], layout="sparse", numrec=2))
     ejobs.append(dict(ejobs[1], layout="sparse", numrec=1))
